@@ -379,6 +379,97 @@ PROFILES = [
     PROCESS_PROFILE,
 ] + CONS_PROFILES + W_PROFILES
 
+# ---- FLD grid (Op.increment, FldExporter.write_from_scope)
+# `Op.increment` mutates the list `x` in place: the parameter `x0` initialises the local `x`, the recursive call
+# copies the callee's final `x` back (`inout`).  The digits are naturals; the maxima are integers because
+# `write_from_scope` computes them by subtraction (`values - 1` is -1 for `values = 0`).
+FLD_VAR = "Py.Fld.Var"
+PROFILES += [
+    {
+        "name": "Op_increment", "module": "fuzzylite.operation", "object": "Operation.increment", "file": "CodeFld",
+        "params": [("x0", "List Nat"), ("minimum", "List Nat"), ("maximum", "List Int"), ("position0", "Option Int")],
+        "init": {"x": "x0", "position": "position0"},
+        "locals": {"x": "List Nat", "position": "Option Int", "incremented": "Bool"},
+        "ret": "Bool",
+        "self_call": "Op.increment(_0, _1, _2, _3)", "rec_fuel": "x0.length + 1", "inout": {"x0": "x"},
+    },
+    {
+        # the call with `active_variables` given (the membership test is the field `active` of a variable); the
+        # floating-point guess of the root is an arbitrary function `guess values inputs`; the export itself
+        # (`self.write`) is outside: the observable is the list `input_values` of rows
+        "name": "write_from_scope", "module": "fuzzylite.exporter", "object": "FldExporter.write_from_scope", "file": "CodeFld",
+        "params": [("vars", f"List {FLD_VAR}"), ("values", "Nat"), ("allVariables", "Bool"), ("guess", "Nat → Nat → Nat")],
+        "skip_if": ["active_variables is None"],
+        "locals": {"inputs": "Nat", "root": "Int", "resolution": "Int", "sample_values": "List Nat", "min_values": "List Nat",
+                   "max_values": "List Int", "input_values": "List (List (X Rat))", "incremented": "Bool",
+                   "row": "List (X Rat)", "index": "Nat", "variable": FLD_VAR, "dx": "X Rat", "value": "X Rat"},
+        "fuel": {1: "Op.Fld.total (σ.max_values.map Int.toNat) + 1", 3: "σ.root.toNat + 1", 4: "values + 1"},
+        "externals": [
+            ("engine.input_variables", "vars", f"List {FLD_VAR}", True),
+            ("scope == FldExporter.ScopeOfValues.AllVariables", "allVariables", "Bool", True),
+            ("int(pow(_0, 1.0 / _1))", "(guess {0} {1})", "Nat", True, ["Nat", "Nat"]),
+            ("_0 in active_variables", "{0}.active", "Bool", True, [FLD_VAR]),
+            ("_0 not in active_variables", "(!{0}.active)", "Bool", True, [FLD_VAR]),
+            ("_0.drange", "{0}.drange", "X Rat", True, [FLD_VAR]),
+            ("_0.minimum", "{0}.minimum", "X Rat", True, [FLD_VAR]),
+            ("np.take(_0.value, -1).astype(float)", "{0}.value", "X Rat", True, [FLD_VAR]),
+        ],
+        "stmt_externals": [
+            # the call of the other translated function: its generated definition; `sample_values` is mutated in place
+            ("incremented = Op.increment(sample_values, min_values, max_values)",
+             "(Op_increment.run σ.sample_values σ.min_values σ.max_values none {{}} >>= fun r => Py.deref r.ret >>= fun v => "
+             ".ok {{ σ with sample_values := r.x, incremented := v }})", False),
+            ("self.write(engine, writer, np.array(input_values))", "σ", True),
+        ],
+    },
+]
+
+# ---- Python representation (Representation.construction_arguments)
+# The call with `fields` given: `fields name` is the text `self.repr` produces for the value stored under `name`
+# (`None` = the name is not a key); `signature` is `inspect.signature(...).parameters.values()` (with `self`),
+# `noInit` says that the class has no constructor of its own.
+PARAM = "Op.PyRepr.Param"
+PROFILES += [
+    {
+        "name": "construction_arguments", "module": "fuzzylite.library", "object": "Representation.construction_arguments",
+        "file": "CodeRepr",
+        "params": [("noInit", "Bool"), ("signature", f"List {PARAM}"), ("fields", "String → Option String"), ("positional0", "Bool")],
+        "init": {"positional": "positional0"},
+        "skip_if": ["fields is None"],
+        "locals": {"positional": "Bool", "arguments": "List String", "constructor": f"List {PARAM}", "parameter": PARAM,
+                   "value": "String", "argument": "String"},
+        "ret": "List String",
+        "externals": [
+            ("x.__class__.__init__ == object.__init__", "noInit", "Bool", True),
+            ("list(inspect.signature((cast_as or x.__class__).__init__).parameters.values())", "signature", f"List {PARAM}", True),
+            ("_0.name", "{0}.name", "String", True, [PARAM]),
+            ("_0 in fields", "(fields {0}).isSome", "Bool", True, ["String"]),
+            ("self.repr(fields[_0])", "(Py.Repr.field fields {0})", "String", False, ["String"]),
+            ("_0.default != _0.empty", "{0}.hasDefault", "Bool", True, [PARAM]),
+        ],
+    },
+]
+
+# ---- Settings.context (generator-based context manager: enter = up to the yield, exit = the finally block)
+# Keys are the indices of the keyword parameters / attributes (model `Op.Settings`), values are abstract identifiers;
+# `None` = argument not given.  The object is the local `store` (attribute index -> value).  The renaming of the key
+# `factory_manager` to the attribute `_factory_manager` keeps the index (and the entry stays last).
+SET_LOCALS = {"context_settings": "List (Nat × Option Nat)", "rollback_settings": "Nat → Option Nat", "key": "Nat",
+              "value": "Option Nat", "store": "Nat → Option Nat"}
+SET_EXT = [("locals().items()", "kwargs", "List (Nat × Option Nat)", True),
+           ("_0 == 'self'", "false", "Bool", True, ["Nat"]),
+           ("vars(self).copy()", "σ.store", "Nat → Option Nat", True)]
+SET_STMT = [("if 'factory_manager' in context_settings:\n    context_settings['_factory_manager'] = context_settings.pop('factory_manager')", "σ", True),
+            ("setattr(self, key, value)", "{{ σ with store := Py.Settings.setattr σ.store σ.key σ.value }}", True),
+            ("setattr(self, key, rollback_settings[key])", "{{ σ with store := Py.Settings.setattr σ.store σ.key (σ.rollback_settings σ.key) }}", True)]
+PROFILES += [
+    dict({"name": "Settings_context_enter", "module": "fuzzylite.library", "object": "Settings.context", "file": "CodeSettings",
+          "part": "enter", "params": [("kwargs", "List (Nat × Option Nat)"), ("store0", "Nat → Option Nat")], "init": {"store": "store0"},
+          "locals": SET_LOCALS, "externals": SET_EXT, "stmt_externals": SET_STMT}),
+    dict({"name": "Settings_context_exit", "module": "fuzzylite.library", "object": "Settings.context", "file": "CodeSettings",
+          "part": "exit", "params": [], "locals": SET_LOCALS, "externals": SET_EXT, "stmt_externals": SET_STMT}),
+]
+
 FILES = {
     "CodeRule": {"imports": ["FlVerif.Op.PyExt"]},
     "CodeFunction": {"imports": ["FlVerif.Op.PyExt"]},
@@ -390,4 +481,10 @@ FILES = {
     "CodeConsequent": {"imports": ["FlVerif.Op.PyExtCons"]},
     "CodeWeighted": {"imports": ["FlVerif.Op.PyExtWeighted"]},
     "CodeLoad": {"imports": ["FlVerif.Op.PyExtLoad"]},  # loaders of rule.py
+    # ---- FLD grid
+    "CodeFld": {"imports": ["FlVerif.Op.PyExtFld"]},
+    # ---- Python representation
+    "CodeRepr": {"imports": ["FlVerif.Op.PyExtRepr"]},
+    # ---- Settings.context
+    "CodeSettings": {"imports": ["FlVerif.Op.PyExtSettings"]},
 }
